@@ -128,6 +128,60 @@ func init() {
 			}
 		},
 	}
+	// downlink: every UE receives messages protected by its AMF (built here with the library's primitives, DIRECTION 1) and
+	// recovers them with tglib.NASDecode; the UEs use different algorithm pairs (NIA1/NEA2, NIA2/NEA1, NIA1/NEA1, NIA2/NEA2)
+	families["nas_unprotect"] = func() job {
+		ues := map[int]*tglib.RanUeContext{}
+		var mu sync.Mutex
+		plain := nasTestpacket.GetRegistrationComplete(nil)
+		return func(g, i int) string {
+			mu.Lock()
+			ue := ues[g]
+			if ue == nil {
+				ue = tglib.NewRanUeContext(fmt.Sprintf("imsi-20893%010d", g), int64(g), uint8(1+g%2), uint8(1+(g/2)%2))
+				for j := range ue.KnasEnc {
+					ue.KnasEnc[j] = byte(g*5 + j)
+					ue.KnasInt[j] = byte(g*7 + j)
+				}
+				ues[g] = ue
+			}
+			mu.Unlock()
+			count := uint32(i)
+			body := append([]byte{}, plain...)
+			body = append(body, bytes.Repeat([]byte{byte(g), byte(i)}, g%9)...)
+			want := hex.EncodeToString(body)
+			c := append([]byte{}, body...)
+			if err := security.NASEncrypt(ue.CipheringAlg, ue.KnasEnc, count, 1, 1, c); err != nil {
+				return "err-enc"
+			}
+			mac, err := security.NASMacCalculate(ue.IntegrityAlg, ue.KnasInt, count, 1, 1, append([]byte{byte(i)}, c...))
+			if err != nil {
+				return "err-mac"
+			}
+			pkt := append([]byte{0x7e, 0x02}, mac...)
+			pkt = append(pkt, byte(i))
+			pkt = append(pkt, c...)
+			ue.DLCount.Set(uint16(i>>8), uint8(i))
+			if i > 0 {
+				ue.DLCount.Set(uint16((i-1)>>8), uint8(i-1))
+			}
+			m, err := tglib.NASDecode(ue, nas.GetSecurityHeaderType(pkt), pkt)
+			if err != nil {
+				return "err-dec:" + err.Error()
+			}
+			re, err := m.PlainNasEncode()
+			if err != nil {
+				return "err-reenc"
+			}
+			// the plain message is a REGISTRATION COMPLETE followed by filler the codec drops: compare the recovered message
+			// NASDecode deciphers in place: pkt[7:] now holds what the UE recovered
+			ok := "recovered"
+			if hex.EncodeToString(pkt[7:]) != want {
+				ok = "NOT-RECOVERED:" + hex.EncodeToString(pkt[7:])
+			}
+			return hex.EncodeToString(re) + fmt.Sprintf("/%d/", ue.DLCount.Get()) + ok
+		}
+	}
 	// the AES based algorithms alone (no SNOW 3G mutex in the way): many short calls under different keys
 	families["nas_cipher_aes"] = func() job {
 		return func(g, i int) string {
